@@ -475,6 +475,20 @@ def state_writes(prj: Project, fi: FuncInfo):
                         tgt = t.value.id
             if tgt is not None:
                 out.append((f"{fi.module.name}.{fi.local}(<default of {tgt}>)", n))
+    # a module-level one-shot iterator (zip / map / filter / iter / a generator expression): the first function that iterates it
+    # leaves it empty for the rest of the process
+    for n in fi.walk():
+        if isinstance(n, ast.Name) and isinstance(n.ctx, ast.Load) and n.id not in fi.params():
+            v = fi.module.assigns.get(n.id)
+            owner = fi.module
+            if v is None and n.id in fi.module.imports:
+                tgt = prj._resolve_import(fi.module.imports[n.id])
+                if isinstance(tgt, tuple) and tgt[0] == "modattr":
+                    owner, v = tgt[1], tgt[1].assigns.get(tgt[2])
+            if v is not None and (isinstance(v, ast.GeneratorExp) or (isinstance(v, ast.Call) and isinstance(v.func, ast.Name)
+                                                                      and v.func.id in ("zip", "map", "filter", "iter", "reversed", "enumerate"))):
+                if not any(isinstance(x, ast.Assign) and any(isinstance(t, ast.Name) and t.id == n.id for t in x.targets) for x in fi.walk()):
+                    out.append((f"{owner.name}.{n.id} (a one-shot iterator, consumed here)", n))
     globs = set()
     for n in fi.walk():
         if isinstance(n, ast.Global):
